@@ -7,6 +7,8 @@
 //   res=sigN / res=abort-other / res=exitN : anything else
 // Input:
 //   case ID / root D f l ... / op NAME args / oob PATH i0 i1 ... / end        PATH: B brackets, C call syntax, T tuple apply
+//        PATH may also be ENTRY@RECV: the entry point (B C T U F K I S N H E A Ax) invoked on a receiver of the named class and
+//        value category (cv_l .. sta_r) built from the current view: harness/common/c20_recv.hpp
 //   case ID / droot D f l ... / dop ... / sroot D f l ... / sop ... / asg KIND / end
 //        KIND: assign (subarray& = subarray const&), assign_const (= const_subarray const&), assign_rv (subarray&& = lvalue),
 //              move (= element_moved()), swap, assign_move (= std::move(s)), assign_rv_rv (rvalue = rvalue),
@@ -21,6 +23,7 @@
 // Output: S lines (shapes, as h_views), D / A / K result lines, L info lines (file:line of the assertion), E.
 #include "common/viewprog.hpp"
 #include "common/c20_site_probes.hpp"
+#include "common/c20_recv.hpp"
 
 #include <fcntl.h>
 #include <sys/resource.h>
@@ -43,7 +46,9 @@ struct ChildResult {
 	long line = 0;
 	int rank = -1;     // dimensionality named in the assertion's function signature, when present
 	std::string expr;  // asserted expression (shortened)
+	std::string fn;    // the member function that holds the assertion: at_aux_ | operator[] | elements_at | ... | -
 	std::string hash;  // what the child reported after finishing (assignment statements), or "-"
+	std::string val;   // the element value an index test read, or "-"
 };
 
 static ChildResult in_child(std::function<void()> const& body) {
@@ -83,10 +88,13 @@ static ChildResult in_child(std::function<void()> const& body) {
 	ChildResult r;
 	r.file = "-";
 	r.hash = "-";
+	r.val = "-";
 	{
 		static std::regex const reh(R"(HASH (\d+))");
 		std::smatch mh;
 		if(std::regex_search(err, mh, reh)) { r.hash = mh[1]; }
+		static std::regex const rev(R"(VAL (-?\d+))");
+		if(std::regex_search(err, mh, rev)) { r.val = mh[1]; }
 	}
 	bool const asan = err.find("AddressSanitizer") != std::string::npos || err.find("runtime error:") != std::string::npos;
 	static std::regex const re(R"(: ([^\s:]+):(\d+): (.*): Assertion `(.*)' failed\.)");
@@ -97,6 +105,12 @@ static ChildResult in_child(std::function<void()> const& body) {
 		r.line = std::stol(m[2]);
 		std::string const fn = m[3];
 		r.expr = m[4];
+		{
+			// "... boost::multi::const_subarray<T, D, ElementPtr, Layout>::at_aux_(boost::multi::index) const [with ..."
+			static std::regex const ref(R"(>::(operator\[\]|[A-Za-z_][A-Za-z_0-9]*)\()");
+			std::smatch mf;
+			r.fn = std::regex_search(fn, mf, ref) ? std::string(mf[1]) : std::string("-");
+		}
 		std::smatch d;
 		static std::regex const red(R"(long int D = (\d+))");
 		static std::regex const re1(R"(const_subarray<T, 1)");
@@ -123,7 +137,7 @@ static std::string base_name(std::string const& p) {
 static void info_line(std::string const& id, int n, ChildResult const& r) {
 	std::cout << "L " << id << ' ' << n << " file=" << base_name(r.file) << " line=" << r.line << " expr=";
 	for(char c : r.expr.substr(0, 70)) { std::cout << (c == ' ' ? '_' : c); }
-	std::cout << '\n';
+	std::cout << " fn=" << (r.fn.empty() ? std::string("-") : r.fn) << '\n';
 }
 
 // ---- assignment between two views over array_refs on two separate buffers ----
@@ -413,17 +427,34 @@ int main() {
 				idx_t i = 0;
 				while(is >> i) { x.push_back(i); }
 				++ndeath;
+				auto const at = path.find('@');
 				auto r = in_child([&] {
-					int* p = nullptr;
-					if(path == "B") { p = root.view->at_brackets(x); }
-					else if(path == "C") { p = root.view->at_call(x); }
-					else { p = root.view->at_tuple(x); }
-					volatile int sink = *p;  // the access the assertion must prevent
-					(void)sink;
+					int value = 0;
+					if(at == std::string::npos) {
+						int* p = nullptr;
+						if(path == "B") { p = root.view->at_brackets(x); }
+						else if(path == "C") { p = root.view->at_call(x); }
+						else { p = root.view->at_tuple(x); }
+						volatile int sink = *p;  // the access the assertion must prevent
+						value = sink;
+					} else {
+						c20r::Access a;
+						a.entry = path.substr(0, at);
+						a.kind = c20r::recv_of(path.substr(at + 1));
+						a.x = x;
+						try { root.view->accept(a); } catch(c20r::not_available const&) { _exit(79); }
+						volatile int sink = a.value;
+						value = sink;
+					}
+					std::string const msg = "VAL " + std::to_string(value) + "\n";
+					if(write(2, msg.data(), msg.size()) < 0) { _exit(75); }
 				});
+				if(r.res == "exit79") { r.res = "unavailable"; }  // the entry point does not exist on this receiver
+				if(r.res == "exit76") { r.res = "unsupported"; }
 				std::cout << "D " << id << ' ' << ndeath << " path=" << path << " idx=" << dv::join(x.begin(), x.end()) << " res=" << r.res
 				          << " rank=";
 				if(r.res == "abort" && r.rank >= 0) { std::cout << r.rank; } else { std::cout << '-'; }
+				if(r.res == "ok") { std::cout << " val=" << r.val; }
 				std::cout << '\n';
 				if(r.res != "ok") { info_line(id, ndeath, r); }
 			} else if(kw == "xop") {  // a view-forming call outside its documented domain: must be stopped by an assertion
